@@ -167,7 +167,10 @@ impl HBox {
             list,
             ..Default::default()
         };
-        let mut total_glue = common::Glue::default();
+        // Total stretch and shrink of each order of infinity, indexed by `GlueOrder`
+        // (TeX.2021.650).
+        let mut total_stretch = [common::Scaled::ZERO; 4];
+        let mut total_shrink = [common::Scaled::ZERO; 4];
         let mut natural_width = common::Scaled::ZERO;
         for elem in &hbox.list {
             // TeX.2021.658
@@ -218,35 +221,8 @@ impl HBox {
                 }
                 H::Glue(glue) => {
                     // TeX.2021.656
-                    use std::cmp::Ordering::*;
-                    match total_glue.shrink_order.cmp(&glue.value.shrink_order) {
-                        Less => {
-                            total_glue.shrink = glue.value.shrink;
-                            total_glue.shrink_order = glue.value.shrink_order;
-                        }
-                        Equal => {
-                            total_glue.shrink += glue.value.shrink;
-                        }
-                        Greater => {
-                            // Do nothing.
-                            // This glue has smaller order than some other glue in the box, so will
-                            // not be used for shrinking.
-                        }
-                    }
-                    match total_glue.stretch_order.cmp(&glue.value.stretch_order) {
-                        Less => {
-                            total_glue.stretch = glue.value.stretch;
-                            total_glue.stretch_order = glue.value.stretch_order;
-                        }
-                        Equal => {
-                            total_glue.stretch += glue.value.stretch;
-                        }
-                        Greater => {
-                            // Do nothing.
-                            // This glue has smaller order than some other glue in the box, so will
-                            // not be used for stretching.
-                        }
-                    }
+                    total_stretch[glue.value.stretch_order as usize] += glue.value.stretch;
+                    total_shrink[glue.value.shrink_order as usize] += glue.value.shrink;
                     // TODO: implement leader support.
                     [glue.value.width, common::Scaled::ZERO, common::Scaled::ZERO]
                 }
@@ -264,6 +240,26 @@ impl HBox {
                 hbox.depth = d;
             }
         }
+
+        // TeX.2021.659 and TeX.2021.665: the glue that stretches (or shrinks) is that of the
+        // highest order of infinity whose total is non-zero.
+        let dominating = |totals: &[common::Scaled; 4]| {
+            use GlueOrder::*;
+            let order = [Filll, Fill, Fil]
+                .into_iter()
+                .find(|order| totals[*order as usize] != common::Scaled::ZERO)
+                .unwrap_or(Normal);
+            (totals[order as usize], order)
+        };
+        let (stretch, stretch_order) = dominating(&total_stretch);
+        let (shrink, shrink_order) = dominating(&total_shrink);
+        let total_glue = common::Glue {
+            width: natural_width,
+            stretch,
+            stretch_order,
+            shrink,
+            shrink_order,
+        };
 
         // TeX.2021.657
         hbox.width = match pack_width {
